@@ -1,7 +1,7 @@
 (* Extraction of the executable models for the correspondence check.
    ExtrOcamlBasic only: bool, option, list, prod, unit, sumbool map to OCaml's own types;
    nat, positive, N, Z stay the extracted inductives.  No Extract Constant / Extract Inductive here. *)
-From M Require LexModel MatchModel FmtModel ParserModel RegModel HeapModel ErrQueue NumDecode GFmt Dtostre BufModel ExprModel Generated Glue.
+From M Require LexModel MatchModel FmtModel ParserModel RegModel HeapProof QStatic ErrQueue NumDecode GFmt Dtostre BufModel ExprModel Generated Glue.
 Require Import Extraction ExtrOcamlBasic.
 Separate Extraction
   LexModel.lex_ws LexModel.lex_header LexModel.lex_chardata LexModel.lex_decimal LexModel.lex_suffix LexModel.lex_nondecimal
@@ -11,11 +11,11 @@ Separate Extraction
   FmtModel.int2str FmtModel.result_error
   ParserModel.scpi_input ParserModel.scpi_parse ParserModel.ctx ParserModel.op ParserModel.event
   RegModel.push RegModel.pop RegModel.clear RegModel.wr RegModel.cls
-  HeapModel.heap_init HeapModel.fifo_init HeapModel.error_push HeapModel.error_pop_release HeapModel.error_clear
+  QStatic.error_pop_release QStatic.error_clear
   ErrQueue.push ErrQueue.pop ErrQueue.clear
   GFmt.fmt_double GFmt.fmt_float Dtostre.layout
   BufModel.array_binary BufModel.double_to_str BufModel.float_to_str BufModel.number_to_str
   ExprModel.numlist_entry_int ExprModel.chanlist_entry
   NumDecode.strtod_bits NumDecode.strtof_bits
   Generated.gen_err_desc Generated.gen_err_fallback Generated.gen_units Generated.gen_desc_max
-  Glue.desc_of Glue.descz Glue.eq_push_ex Glue.eq_init Glue.eq_count Glue.eq_systerr Glue.hq_systerr Glue.numlist_entry_tok.
+  Glue.desc_of Glue.descz Glue.eq_push_ex Glue.eq_init Glue.eq_count Glue.eq_systerr Glue.hq_init Glue.hq_push_ex Glue.hq_count Glue.hq_systerr Glue.numlist_entry_tok.
